@@ -230,10 +230,14 @@ Lemma ba_useTimezone off t s :
   match zone_lookup s zones with Some o => Ok (VTime (mkTime (t_ns t) o)) | None => Err end.
 Proof. reflexivity. Qed.
 
-Theorem clock_and_format_not_modelled off t s :
-  builtin_apply off (str "now") [] = Unk /\ builtin_apply off (str "toDay") [] = Unk /\
-  builtin_apply off (str "timeFormat") [VTime t; VStr s] = Unk.
+Theorem clock_not_modelled off :
+  builtin_apply off (str "now") [] = Unk /\ builtin_apply off (str "toDay") [] = Unk.
 Proof. repeat split. Qed.
+
+Lemma ba_timeFormat off t s :
+  builtin_apply off (str "timeFormat") [VTime t; VStr s] =
+  match TimeFormat.time_format t s with Some r => Ok (VStr r) | None => Unk end.
+Proof. reflexivity. Qed.
 
 (* ---------- the civil fields of an instant in its zone ---------- *)
 
